@@ -1,7 +1,7 @@
 (* Run08.v — case runner for C08 (harness/src/c08.rs): the regexes of the model of
    numeric.rs decide each literal *)
 From Coq Require Import String.
-From LLG Require Import Base Params Sx Regex Numeric.
+From LLG Require Import Base Params Sx Regex Numeric IntBounds.
 Open Scope string_scope.
 Open Scope N_scope.
 
@@ -36,6 +36,14 @@ Definition run_case08 (x : sx) : sx :=
     | NOk r =>
         let r := normalize r in
         tagged "ok" (map (fun s => sb (re_match r (as_bytes s))) (as_list (nth_sx a 2)))
+    end
+  else if is "intbounds" then
+    (* integer schema with fractional / exclusive bounds: (dec excl) | none, twice, then integer literals *)
+    match rx_int_bounds (bound_of_sx (nth_sx a 0)) (bound_of_sx (nth_sx a 1)) with
+    | NErr => tagged "err" []
+    | NOk r =>
+        let r := normalize r in
+        tagged "ok" (map (fun z => sb (re_match r (int_literal (as_z z)))) (as_list (nth_sx a 2)))
     end
   else if is "lcm" then
     (* allOf of two integer multipleOf: combined by Decimal::lcm, then matched by derivre *)
